@@ -847,3 +847,461 @@ example (P : Prims) (O : OutPrims) (fs : FS) (env : Env) :
       .err ⟨2, true, .none, .notInside⟩ :=
   unless_elsif_rejected_source P O {} fs 1 1 env [120] Ws.std [.text [97]] [⟨none, Ws.std, [.text [98, 10]]⟩]
     ⟨some [121], Ws.std, [.text [99]]⟩ [] Ws.std [121] (by decide) (by decide) (by decide) (by decide) (by decide) rfl
+
+/-! ## `case` with any number of clauses: `{% case s %}J{% when vs1 %}B1{% when vs2 %}B2 … {% else %}E … {% endcase %}`
+
+`caseChainSrc s w0 J rest wE` (Proofs/SrcClauses.lean) is the source: the `case` tag, whatever stands between it and the first
+clause (`J`: compiled, never rendered — `caseTagCompiler` ignores `node.Body`), then any number of clauses in any order — a clause
+with `cond = some vs` is `{% when vs %}body`, one with `cond = none` is `{% else %}body` — and `{% endcase %}`. The value list `vs` of
+a `when` tag is what the grammar rule `WHEN exprs` accepts: expressions WITHOUT filters separated by commas (`parseStatement kwWhen`);
+`or` is not a separator in this implementation (`case_bad_when_source`, and the example after it). `Clause.GoodWhen` (decidable): the
+values parse and the body is a self-contained template. `whenRes P env v es` (Proofs/C10.lean) evaluates the values in order and
+compares each with the subject by `P.equalFn` (`values.Equal` in the standard layer), stopping at the first that is equal
+(`when_matches_iff`, `when_misses_iff`); `Clause.Miss`: a `when` clause all of whose values evaluate and are unequal to the subject.
+
+As `caseTagCompiler` does: the subject is evaluated once, first; the clauses are tried in source order; the first clause that is an
+`else` or lists a value equal to the subject is rendered and nothing after it is looked at — so of several matching clauses the first
+wins, and an `else` that is not last hides every clause after it. -/
+
+/-- **C10 (`case`: the first clause that matches), from source bytes.** Let the subject `s` parse and evaluate to `v`, let every
+    clause of `pre` be a `when` clause none of whose values equals `v`, and let the next clause `sel` be an `else`, or a `when` one
+    of whose values equals `v` (the values before it in the list evaluating unequal). Then the block — whatever clauses `post`
+    follow, as long as they compile — succeeds exactly when the body of `sel` does (as a template of its own, at the line where it
+    stands), with exactly that output. -/
+theorem case_clause_source (P : Prims) (O : OutPrims) (cfg : Cfg) (fs : FS) (fuel : Nat) (line : Nat) (env : Env)
+    (s : Bytes) (w0 : Ws) (J : List Item) (pre : List Clause) (sel : Clause) (post : List Clause) (wE : Ws) (subj : Expr) (v : GoVal)
+    (hg : GoodDelims (Delims.ofList cfg.delims))
+    (hc : Clean (Delims.ofList cfg.delims) (caseChainSrc s w0 J (pre ++ sel :: post) wE))
+    (hcS : Clean (Delims.ofList cfg.delims) sel.body)
+    (hps : parseExprSource s = .ok subj) (hJ : Compiles (Delims.ofList cfg.delims) J 0)
+    (hrest : ∀ c ∈ pre ++ sel :: post, c.GoodWhen (Delims.ofList cfg.delims))
+    (hv : evaluate P env subj = .ok v)
+    (hpre : ∀ c ∈ pre, c.Miss P env v)
+    (hsel : sel.cond = none ∨ ∃ t es, sel.cond = some t ∧ parseStatement kwWhen t = .ok (.when es) ∧ whenRes P env v es = .ok true)
+    (out : Bytes) :
+    run P O cfg fs fuel (spell (Delims.ofList cfg.delims) (caseChainSrc s w0 J (pre ++ sel :: post) wE)) line env = .ok out ↔
+    run P O cfg fs fuel (spell (Delims.ofList cfg.delims) sel.body)
+      (line + countNL (spell (Delims.ofList cfg.delims) (tg nmCase s w0 :: (J ++ (clauseItemsK nmWhen pre ++ [sel.tagK nmWhen]))))) env
+      = .ok out := by
+  have hline : line + countNL (spell (Delims.ofList cfg.delims) (tg nmCase s w0 :: (J ++ (clauseItemsK nmWhen pre ++ [sel.tagK nmWhen])))) =
+      line + countNL ((tg nmCase s w0).spell (Delims.ofList cfg.delims)) + countNL (spell (Delims.ofList cfg.delims) J) +
+        countNL (spell (Delims.ofList cfg.delims) (clauseItemsK nmWhen pre)) + countNL ((sel.tagK nmWhen).spell (Delims.ofList cfg.delims)) := by
+    have h0 : countNL (spell (Delims.ofList cfg.delims) []) = 0 := rfl
+    simp only [spell_cons, spell_append, countNL_append, h0]
+    omega
+  rw [run_caseK_shape P O cfg fs fuel line env s w0 J (pre ++ sel :: post) wE subj hg hc hps hJ hrest, hline,
+    run_spell P O cfg fs fuel sel.body _ env hg hcS, nodesOf_spec (hrest sel (by simp)).2]
+  show _ ↔ runRoot P O cfg fs fuel (nodesOf (Delims.ofList cfg.delims) sel.body _) env = .ok out
+  apply runRoot_wrapped_body_ok P O cfg fs fuel _ _ env ⟨line, true⟩
+  rw [case_node_denotation (mkCtx P O cfg fs fuel) line subj _ ⟨env, {}⟩ v hv, caseCls_append]
+  obtain ⟨ws, hws, hmiss⟩ := caseCls_miss (Delims.ofList cfg.delims) P env v pre
+    (line + countNL ((tg nmCase s w0).spell (Delims.ofList cfg.delims)) + countNL (spell (Delims.ofList cfg.delims) J)) hpre
+  rw [hws]
+  simp only [caseCls]
+  rcases hsel with hn | ⟨t, es, hcnd, hpw, hw⟩
+  · have hwa : ∀ l, sel.whenAt l = none := fun l => by simp only [Clause.whenAt, hn]
+    simp only [wrapAt, hwa, case_else (mkCtx P O cfg fs fuel) v ⟨env, {}⟩ ws _ _ hmiss]
+    rfl
+  · have hwa : ∀ l, sel.whenAt l = some (l, es) := fun l => by simp only [Clause.whenAt, hcnd, hpw]
+    simp only [wrapAt, hwa, case_first_equal (mkCtx P O cfg fs fuel) v ⟨env, {}⟩ ws _ es _ _ hmiss hw]
+    rfl
+
+/-- **C10 (`case`: no clause matches), from source bytes.** If every clause is a `when` clause none of whose values equals the value
+    of the subject (no `else`), the block renders nothing, successfully. -/
+theorem case_none_source (P : Prims) (O : OutPrims) (cfg : Cfg) (fs : FS) (fuel : Nat) (line : Nat) (env : Env)
+    (s : Bytes) (w0 : Ws) (J : List Item) (rest : List Clause) (wE : Ws) (subj : Expr) (v : GoVal)
+    (hg : GoodDelims (Delims.ofList cfg.delims)) (hc : Clean (Delims.ofList cfg.delims) (caseChainSrc s w0 J rest wE))
+    (hps : parseExprSource s = .ok subj) (hJ : Compiles (Delims.ofList cfg.delims) J 0)
+    (hrest : ∀ c ∈ rest, c.GoodWhen (Delims.ofList cfg.delims))
+    (hv : evaluate P env subj = .ok v) (hall : ∀ c ∈ rest, c.Miss P env v) :
+    run P O cfg fs fuel (spell (Delims.ofList cfg.delims) (caseChainSrc s w0 J rest wE)) line env = .ok [] := by
+  rw [run_caseK_shape P O cfg fs fuel line env s w0 J rest wE subj hg hc hps hJ hrest]
+  apply runRoot_silent
+  rw [case_node_denotation (mkCtx P O cfg fs fuel) line subj _ ⟨env, {}⟩ v hv]
+  obtain ⟨ws, hws, hmiss⟩ := caseCls_miss (Delims.ofList cfg.delims) P env v rest
+    (line + countNL ((tg nmCase s w0).spell (Delims.ofList cfg.delims)) + countNL (spell (Delims.ofList cfg.delims) J)) hall
+  rw [hws]
+  simp only [wrapAt, case_none (mkCtx P O cfg fs fuel) v ⟨env, {}⟩ ws hmiss]
+  rfl
+
+/-- **C10 (`case`: a `when` value fails), from source bytes.** If the clauses `pre` are `when` clauses that miss and the next clause
+    `sel` is a `when` whose value list fails with cause `x` — the evaluation of a value, or its comparison with the subject, the
+    values before it in the list being unequal to the subject — the block fails with `x` located at the line of THAT `when` tag
+    (`parser.WrapError(err, clause.body())`), and nothing has been written: later clauses, an `else` included, are not reached. -/
+theorem case_when_err_source (P : Prims) (O : OutPrims) (cfg : Cfg) (fs : FS) (fuel : Nat) (line : Nat) (env : Env)
+    (s : Bytes) (w0 : Ws) (J : List Item) (pre : List Clause) (sel : Clause) (post : List Clause) (wE : Ws) (subj : Expr) (v : GoVal)
+    (t : Bytes) (es : List Expr) (x : Cause)
+    (hg : GoodDelims (Delims.ofList cfg.delims))
+    (hc : Clean (Delims.ofList cfg.delims) (caseChainSrc s w0 J (pre ++ sel :: post) wE))
+    (hps : parseExprSource s = .ok subj) (hJ : Compiles (Delims.ofList cfg.delims) J 0)
+    (hrest : ∀ c ∈ pre ++ sel :: post, c.GoodWhen (Delims.ofList cfg.delims))
+    (hv : evaluate P env subj = .ok v)
+    (hpre : ∀ c ∈ pre, c.Miss P env v)
+    (hsel : sel.cond = some t) (hpw : parseStatement kwWhen t = .ok (.when es)) (hw : whenRes P env v es = .err x) :
+    run P O cfg fs fuel (spell (Delims.ofList cfg.delims) (caseChainSrc s w0 J (pre ++ sel :: post) wE)) line env =
+      .err ⟨line + countNL (spell (Delims.ofList cfg.delims) (tg nmCase s w0 :: (J ++ clauseItemsK nmWhen pre))), true, x, .byCause⟩ ∧
+    written P O cfg fs fuel (spell (Delims.ofList cfg.delims) (caseChainSrc s w0 J (pre ++ sel :: post) wE)) line env = [] := by
+  have hline : line + countNL (spell (Delims.ofList cfg.delims) (tg nmCase s w0 :: (J ++ clauseItemsK nmWhen pre))) =
+      line + countNL ((tg nmCase s w0).spell (Delims.ofList cfg.delims)) + countNL (spell (Delims.ofList cfg.delims) J) +
+        countNL (spell (Delims.ofList cfg.delims) (clauseItemsK nmWhen pre)) := by
+    simp only [spell_cons, spell_append, countNL_append]
+    omega
+  rw [hline]
+  apply run_written_single_fail P O cfg fs fuel _ line env hg hc _ _
+    (caseK_compile _ line s w0 J (pre ++ sel :: post) wE subj hps hJ hrest)
+  rw [caseCls_append]
+  obtain ⟨ws, hws, hmiss⟩ := caseCls_miss (Delims.ofList cfg.delims) P env v pre
+    (line + countNL ((tg nmCase s w0).spell (Delims.ofList cfg.delims)) + countNL (spell (Delims.ofList cfg.delims) J)) hpre
+  rw [hws]
+  have hwa : ∀ l, sel.whenAt l = some (l, es) := fun l => by simp only [Clause.whenAt, hsel, hpw]
+  simp only [caseCls, hwa]
+  exact caseB_when_err (mkCtx P O cfg fs fuel) line subj ⟨env, {}⟩ v hv ws _ es _ _ x hmiss hw (by omega)
+
+/-- **C10 (`case`: the subject fails), from source bytes.** If the subject is an expression whose evaluation fails with cause `x`,
+    the block fails with `x` at the line of the `case` tag, and nothing has been written: no `when` value is evaluated. -/
+theorem case_subject_err_source (P : Prims) (O : OutPrims) (cfg : Cfg) (fs : FS) (fuel : Nat) (line : Nat) (env : Env)
+    (s : Bytes) (w0 : Ws) (J : List Item) (rest : List Clause) (wE : Ws) (subj : Expr) (x : Cause)
+    (hg : GoodDelims (Delims.ofList cfg.delims)) (hc : Clean (Delims.ofList cfg.delims) (caseChainSrc s w0 J rest wE))
+    (hps : parseExprSource s = .ok subj) (hJ : Compiles (Delims.ofList cfg.delims) J 0)
+    (hrest : ∀ c ∈ rest, c.GoodWhen (Delims.ofList cfg.delims))
+    (hv : evaluate P env subj = .err x) :
+    run P O cfg fs fuel (spell (Delims.ofList cfg.delims) (caseChainSrc s w0 J rest wE)) line env = .err ⟨line, true, x, .byCause⟩ ∧
+    written P O cfg fs fuel (spell (Delims.ofList cfg.delims) (caseChainSrc s w0 J rest wE)) line env = [] := by
+  apply run_written_single_fail P O cfg fs fuel _ line env hg hc _ _
+    (caseK_compile _ line s w0 J rest wE subj hps hJ hrest)
+  exact caseB_subject_err (mkCtx P O cfg fs fuel) line subj _ ⟨env, {}⟩ x hv
+
+/-- **C10 (`case`: a `when` tag whose arguments are not a value list), from source bytes.** If the subject is an expression, the
+    `when` clauses `pre` have value lists and the arguments `t` of the next `when` tag do not parse as `WHEN exprs` — `2 or 1`,
+    a value with a filter, nothing at all — the template is not accepted: a syntax error at the line of that `when` tag. -/
+theorem case_bad_when_source (P : Prims) (O : OutPrims) (cfg : Cfg) (fs : FS) (fuel : Nat) (line : Nat) (env : Env)
+    (s : Bytes) (w0 : Ws) (J : List Item) (pre : List Clause) (sel : Clause) (post : List Clause) (wE : Ws) (subj : Expr)
+    (t : Bytes) (x : ParseErr)
+    (hg : GoodDelims (Delims.ofList cfg.delims))
+    (hc : Clean (Delims.ofList cfg.delims) (caseChainSrc s w0 J (pre ++ sel :: post) wE))
+    (hps : parseExprSource s = .ok subj) (hJ : Compiles (Delims.ofList cfg.delims) J 0)
+    (hbodies : ∀ c ∈ pre ++ sel :: post, Compiles (Delims.ofList cfg.delims) c.body 0)
+    (hpre : ∀ c ∈ pre, c.whenOk = true) (hsel : sel.cond = some t) (hbad : parseStatement kwWhen t = .err x) :
+    run P O cfg fs fuel (spell (Delims.ofList cfg.delims) (caseChainSrc s w0 J (pre ++ sel :: post) wE)) line env =
+      .err ⟨line + countNL (spell (Delims.ofList cfg.delims) (tg nmCase s w0 :: (J ++ clauseItemsK nmWhen pre))), true, .syntax, .byCause⟩ := by
+  have hline : line + countNL (spell (Delims.ofList cfg.delims) (tg nmCase s w0 :: (J ++ clauseItemsK nmWhen pre))) =
+      line + countNL ((tg nmCase s w0).spell (Delims.ofList cfg.delims)) + countNL (spell (Delims.ofList cfg.delims) J) +
+        countNL (spell (Delims.ofList cfg.delims) (clauseItemsK nmWhen pre)) := by
+    simp only [spell_cons, spell_append, countNL_append]
+    omega
+  rw [run_spell P O cfg fs fuel _ line env hg hc,
+    caseK_compile_bad _ line s w0 J pre sel post wE subj t x hps hJ hbodies hpre hsel hbad, hline]
+  rfl
+
+/-- **C10 (a `when` list matches), for every value layer.** `whenRes … = .ok true` says: some value of the list evaluates to a value
+    equal to the subject (`P.equalFn`), and every value before it in the list evaluates, without error, to a value that is not. -/
+theorem when_matches_iff (P : Prims) (env : Env) (sel : GoVal) (es : List Expr) :
+    whenRes P env sel es = .ok true ↔
+      ∃ pre e post u, es = pre ++ e :: post ∧ (∀ y ∈ pre, ∃ w, evaluate P env y = .ok w ∧ P.equalFn sel w = .ok false) ∧
+        evaluate P env e = .ok u ∧ P.equalFn sel u = .ok true := by
+  induction es with
+  | nil =>
+    constructor
+    · intro h; cases h
+    · rintro ⟨pre, e, post, u, h, -⟩
+      cases pre <;> cases h
+  | cons a r ih =>
+    rw [whenRes]
+    cases ha : evaluate P env a with
+    | ok w =>
+      simp only
+      cases hq : P.equalFn sel w with
+      | ok b =>
+        cases b with
+        | true =>
+          simp only [true_iff]
+          exact ⟨[], a, r, w, rfl, (fun _ h => by cases h), ha, hq⟩
+        | false =>
+          simp only
+          rw [ih]
+          constructor
+          · rintro ⟨pre, e, post, u, h1, h2, h3, h4⟩
+            refine ⟨a :: pre, e, post, u, by rw [h1]; rfl, ?_, h3, h4⟩
+            intro y hy
+            rcases List.mem_cons.mp hy with rfl | hy
+            · exact ⟨w, ha, hq⟩
+            · exact h2 y hy
+          · rintro ⟨pre, e, post, u, h1, h2, h3, h4⟩
+            cases pre with
+            | nil =>
+              simp only [List.nil_append, List.cons.injEq] at h1
+              obtain ⟨rfl, -⟩ := h1
+              rw [ha] at h3
+              cases h3
+              rw [hq] at h4
+              cases h4
+            | cons p pre =>
+              simp only [List.cons_append, List.cons.injEq] at h1
+              obtain ⟨rfl, rfl⟩ := h1
+              exact ⟨pre, e, post, u, rfl, fun y hy => h2 y (List.mem_cons_of_mem _ hy), h3, h4⟩
+      | err c =>
+        simp only
+        constructor
+        · intro h; cases h
+        · rintro ⟨pre, e, post, u, h1, h2, h3, h4⟩
+          cases pre with
+          | nil =>
+            simp only [List.nil_append, List.cons.injEq] at h1
+            obtain ⟨rfl, -⟩ := h1
+            rw [ha] at h3; cases h3
+            rw [hq] at h4; cases h4
+          | cons p pre =>
+            simp only [List.cons_append, List.cons.injEq] at h1
+            obtain ⟨rfl, -⟩ := h1
+            obtain ⟨w', hw1, hw2⟩ := h2 a (List.mem_cons_self ..)
+            rw [ha] at hw1; cases hw1
+            rw [hq] at hw2; cases hw2
+      | panic m =>
+        simp only
+        constructor
+        · intro h; cases h
+        · rintro ⟨pre, e, post, u, h1, h2, h3, h4⟩
+          cases pre with
+          | nil =>
+            simp only [List.nil_append, List.cons.injEq] at h1
+            obtain ⟨rfl, -⟩ := h1
+            rw [ha] at h3; cases h3
+            rw [hq] at h4; cases h4
+          | cons p pre =>
+            simp only [List.cons_append, List.cons.injEq] at h1
+            obtain ⟨rfl, -⟩ := h1
+            obtain ⟨w', hw1, hw2⟩ := h2 a (List.mem_cons_self ..)
+            rw [ha] at hw1; cases hw1
+            rw [hq] at hw2; cases hw2
+      | unmodelled m =>
+        simp only
+        constructor
+        · intro h; cases h
+        · rintro ⟨pre, e, post, u, h1, h2, h3, h4⟩
+          cases pre with
+          | nil =>
+            simp only [List.nil_append, List.cons.injEq] at h1
+            obtain ⟨rfl, -⟩ := h1
+            rw [ha] at h3; cases h3
+            rw [hq] at h4; cases h4
+          | cons p pre =>
+            simp only [List.cons_append, List.cons.injEq] at h1
+            obtain ⟨rfl, -⟩ := h1
+            obtain ⟨w', hw1, hw2⟩ := h2 a (List.mem_cons_self ..)
+            rw [ha] at hw1; cases hw1
+            rw [hq] at hw2; cases hw2
+    | err c =>
+      simp only
+      constructor
+      · intro h; cases h
+      · rintro ⟨pre, e, post, u, h1, h2, h3, h4⟩
+        cases pre with
+        | nil =>
+          simp only [List.nil_append, List.cons.injEq] at h1
+          obtain ⟨rfl, -⟩ := h1
+          rw [ha] at h3; cases h3
+        | cons p pre =>
+          simp only [List.cons_append, List.cons.injEq] at h1
+          obtain ⟨rfl, -⟩ := h1
+          obtain ⟨w', hw1, -⟩ := h2 a (List.mem_cons_self ..)
+          rw [ha] at hw1; cases hw1
+    | panic m =>
+      simp only
+      constructor
+      · intro h; cases h
+      · rintro ⟨pre, e, post, u, h1, h2, h3, h4⟩
+        cases pre with
+        | nil =>
+          simp only [List.nil_append, List.cons.injEq] at h1
+          obtain ⟨rfl, -⟩ := h1
+          rw [ha] at h3; cases h3
+        | cons p pre =>
+          simp only [List.cons_append, List.cons.injEq] at h1
+          obtain ⟨rfl, -⟩ := h1
+          obtain ⟨w', hw1, -⟩ := h2 a (List.mem_cons_self ..)
+          rw [ha] at hw1; cases hw1
+    | unmodelled m =>
+      simp only
+      constructor
+      · intro h; cases h
+      · rintro ⟨pre, e, post, u, h1, h2, h3, h4⟩
+        cases pre with
+        | nil =>
+          simp only [List.nil_append, List.cons.injEq] at h1
+          obtain ⟨rfl, -⟩ := h1
+          rw [ha] at h3; cases h3
+        | cons p pre =>
+          simp only [List.cons_append, List.cons.injEq] at h1
+          obtain ⟨rfl, -⟩ := h1
+          obtain ⟨w', hw1, -⟩ := h2 a (List.mem_cons_self ..)
+          rw [ha] at hw1; cases hw1
+
+/-- **C10 (a `when` list misses), for every value layer.** `whenRes … = .ok false` says: every value of the list evaluates, without
+    error, to a value that is not equal to the subject. -/
+theorem when_misses_iff (P : Prims) (env : Env) (sel : GoVal) (es : List Expr) :
+    whenRes P env sel es = .ok false ↔ ∀ y ∈ es, ∃ w, evaluate P env y = .ok w ∧ P.equalFn sel w = .ok false := by
+  induction es with
+  | nil => simp [whenRes]
+  | cons a r ih =>
+    rw [whenRes]
+    cases ha : evaluate P env a with
+    | ok w =>
+      simp only
+      cases hq : P.equalFn sel w with
+      | ok b =>
+        cases b with
+        | true =>
+          simp only
+          constructor
+          · intro h; cases h
+          · intro h
+            obtain ⟨w', h1, h2⟩ := h a (List.mem_cons_self ..)
+            rw [ha] at h1; cases h1
+            rw [hq] at h2; cases h2
+        | false =>
+          simp only
+          rw [ih]
+          constructor
+          · intro h y hy
+            rcases List.mem_cons.mp hy with rfl | hy
+            · exact ⟨w, ha, hq⟩
+            · exact h y hy
+          · intro h y hy
+            exact h y (List.mem_cons_of_mem _ hy)
+      | err c =>
+        simp only
+        constructor
+        · intro h; cases h
+        · intro h
+          obtain ⟨w', h1, h2⟩ := h a (List.mem_cons_self ..)
+          rw [ha] at h1; cases h1
+          rw [hq] at h2; cases h2
+      | panic m =>
+        simp only
+        constructor
+        · intro h; cases h
+        · intro h
+          obtain ⟨w', h1, h2⟩ := h a (List.mem_cons_self ..)
+          rw [ha] at h1; cases h1
+          rw [hq] at h2; cases h2
+      | unmodelled m =>
+        simp only
+        constructor
+        · intro h; cases h
+        · intro h
+          obtain ⟨w', h1, h2⟩ := h a (List.mem_cons_self ..)
+          rw [ha] at h1; cases h1
+          rw [hq] at h2; cases h2
+    | err c =>
+      simp only
+      constructor
+      · intro h; cases h
+      · intro h
+        obtain ⟨w', h1, -⟩ := h a (List.mem_cons_self ..)
+        rw [ha] at h1; cases h1
+    | panic m =>
+      simp only
+      constructor
+      · intro h; cases h
+      · intro h
+        obtain ⟨w', h1, -⟩ := h a (List.mem_cons_self ..)
+        rw [ha] at h1; cases h1
+    | unmodelled m =>
+      simp only
+      constructor
+      · intro h; cases h
+      · intro h
+        obtain ⟨w', h1, -⟩ := h a (List.mem_cons_self ..)
+        rw [ha] at h1; cases h1
+
+/-! ### Non-vacuity of the `case` theorems (value layer `c10Prims`: two Go `int`s are equal when they are the same number)
+
+`{% case 1 %}junk{% when 2, 3 %}a{% when 4, 1 %}b{{ y }}{% when 1 %}c{% else %}d{% endcase %}`: the first clause misses, the second lists a
+value equal to the subject — the block renders what `b{{ y }}` renders; the third clause (which matches too) and the `else` are not
+looked at; `junk` is not rendered. -/
+def c10CasePre : List Clause := [⟨some [50, 44, 32, 51], Ws.std, [.text [97]]⟩]
+def c10CaseSel : Clause := ⟨some [52, 44, 32, 49], Ws.std, [.text [98], ob [121]]⟩
+def c10CasePost : List Clause := [⟨some [49], Ws.std, [.text [99]]⟩, ⟨none, Ws.std, [.text [100]]⟩]
+
+example : spell Delims.default (caseChainSrc [49] Ws.std [.text [106, 117, 110, 107]] (c10CasePre ++ c10CaseSel :: c10CasePost) Ws.std) =
+    [123, 37, 32, 99, 97, 115, 101, 32, 49, 32, 37, 125, 106, 117, 110, 107,
+     123, 37, 32, 119, 104, 101, 110, 32, 50, 44, 32, 51, 32, 37, 125, 97,
+     123, 37, 32, 119, 104, 101, 110, 32, 52, 44, 32, 49, 32, 37, 125, 98, 123, 123, 32, 121, 32, 125, 125,
+     123, 37, 32, 119, 104, 101, 110, 32, 49, 32, 37, 125, 99,
+     123, 37, 32, 101, 108, 115, 101, 32, 37, 125, 100, 123, 37, 32, 101, 110, 100, 99, 97, 115, 101, 32, 37, 125] := by decide
+
+example (O : OutPrims) (fs : FS) (env : Env) (out : Bytes) :
+    run c10Prims O {} fs 1 (spell Delims.default (caseChainSrc [49] Ws.std [.text [106, 117, 110, 107]]
+      (c10CasePre ++ c10CaseSel :: c10CasePost) Ws.std)) 1 env = .ok out ↔
+    run c10Prims O {} fs 1 (spell Delims.default [.text [98], ob [121]]) 1 env = .ok out :=
+  case_clause_source c10Prims O {} fs 1 1 env [49] Ws.std [.text [106, 117, 110, 107]] c10CasePre c10CaseSel c10CasePost Ws.std
+    (.lit (.int .int 1)) (.int .int 1) (by decide) (by decide) (by decide) rfl (by decide) (by decide) rfl
+    (by
+      intro c hc
+      simp only [c10CasePre, List.mem_singleton] at hc
+      subst hc
+      exact ⟨[50, 44, 32, 51], [.lit (.int .int 2), .lit (.int .int 3)], rfl, rfl, rfl⟩)
+    (.inr ⟨[52, 44, 32, 49], [.lit (.int .int 4), .lit (.int .int 1)], rfl, rfl, rfl⟩) out
+
+/-- `{% case 1 %}{% when 2 %}a{% else %}b{{ y }}{% when 1 %}c{% endcase %}`: an `else` that is not last hides the matching `when` after it -/
+example (O : OutPrims) (fs : FS) (env : Env) (out : Bytes) :
+    run c10Prims O {} fs 1 (spell Delims.default (caseChainSrc [49] Ws.std []
+      ([⟨some [50], Ws.std, [.text [97]]⟩] ++ (⟨none, Ws.std, [.text [98], ob [121]]⟩ : Clause) :: [⟨some [49], Ws.std, [.text [99]]⟩]) Ws.std)) 1 env
+      = .ok out ↔
+    run c10Prims O {} fs 1 (spell Delims.default [.text [98], ob [121]]) 1 env = .ok out :=
+  case_clause_source c10Prims O {} fs 1 1 env [49] Ws.std [] [⟨some [50], Ws.std, [.text [97]]⟩] ⟨none, Ws.std, [.text [98], ob [121]]⟩
+    [⟨some [49], Ws.std, [.text [99]]⟩] Ws.std
+    (.lit (.int .int 1)) (.int .int 1) (by decide) (by decide) (by decide) rfl (by decide) (by decide) rfl
+    (by
+      intro c hc
+      simp only [List.mem_singleton] at hc
+      subst hc
+      exact ⟨[50], [.lit (.int .int 2)], rfl, rfl, rfl⟩)
+    (.inl rfl) out
+
+/-- `{% case 1 %}{% when 2 %}a{% when 3, 4 %}b{% endcase %}` renders nothing -/
+example (O : OutPrims) (fs : FS) (env : Env) :
+    run c10Prims O {} fs 1 (spell Delims.default (caseChainSrc [49] Ws.std []
+      [⟨some [50], Ws.std, [.text [97]]⟩, ⟨some [51, 44, 32, 52], Ws.std, [.text [98]]⟩] Ws.std)) 1 env = .ok [] :=
+  case_none_source c10Prims O {} fs 1 1 env [49] Ws.std [] [⟨some [50], Ws.std, [.text [97]]⟩, ⟨some [51, 44, 32, 52], Ws.std, [.text [98]]⟩]
+    Ws.std (.lit (.int .int 1)) (.int .int 1) (by decide) (by decide) rfl (by decide) (by decide) rfl
+    (by
+      intro c hc
+      simp only [List.mem_cons, List.mem_nil_iff, or_false] at hc
+      rcases hc with rfl | rfl
+      · exact ⟨[50], [.lit (.int .int 2)], rfl, rfl, rfl⟩
+      · exact ⟨[51, 44, 32, 52], [.lit (.int .int 3), .lit (.int .int 4)], rfl, rfl, rfl⟩)
+
+/-- `{% case 1 %}{% when 2 %}a⏎{% when 3, (1.."a") %}b{% else %}c{% endcase %}`: the second value of the second clause fails — the type
+    error at line 2, the line of that `when` tag, nothing written; the `else` is not reached -/
+example (O : OutPrims) (fs : FS) (env : Env) :
+    run c10Prims O {} fs 1 (spell Delims.default (caseChainSrc [49] Ws.std []
+      ([⟨some [50], Ws.std, [.text [97, 10]]⟩] ++ (⟨some ([51, 44, 32] ++ c10Poison), Ws.std, [.text [98]]⟩ : Clause) ::
+        [⟨none, Ws.std, [.text [99]]⟩]) Ws.std)) 1 env = .err ⟨2, true, .typeErr, .byCause⟩ :=
+  (case_when_err_source c10Prims O {} fs 1 1 env [49] Ws.std [] [⟨some [50], Ws.std, [.text [97, 10]]⟩]
+    ⟨some ([51, 44, 32] ++ c10Poison), Ws.std, [.text [98]]⟩ [⟨none, Ws.std, [.text [99]]⟩] Ws.std
+    (.lit (.int .int 1)) (.int .int 1) ([51, 44, 32] ++ c10Poison)
+    [.lit (.int .int 3), .range (.lit (.int .int 1)) (.lit (.str [97]))] .typeErr
+    (by decide) (by decide) rfl (by decide) (by decide) rfl
+    (by
+      intro c hc
+      simp only [List.mem_singleton] at hc
+      subst hc
+      exact ⟨[50], [.lit (.int .int 2)], rfl, rfl, rfl⟩)
+    rfl rfl rfl).1
+
+/-- `{% case (1.."a") %}{% when 2 %}a{% endcase %}` started at line 4: the type error at line 4, in every value layer -/
+example (P : Prims) (O : OutPrims) (fs : FS) (env : Env) :
+    run P O {} fs 1 (spell Delims.default (caseChainSrc c10Poison Ws.std [] [⟨some [50], Ws.std, [.text [97]]⟩] Ws.std)) 4 env =
+      .err ⟨4, true, .typeErr, .byCause⟩ :=
+  (case_subject_err_source P O {} fs 1 4 env c10Poison Ws.std [] [⟨some [50], Ws.std, [.text [97]]⟩] Ws.std
+    (.range (.lit (.int .int 1)) (.lit (.str [97]))) .typeErr (by decide) (by decide) rfl (by decide) (by decide) rfl).1
+
+/-- `{% case 1 %}{% when 2 or 1 %}a{% endcase %}`: `or` does not separate `when` values here — a syntax error at the `when` tag -/
+example (P : Prims) (O : OutPrims) (fs : FS) (env : Env) :
+    run P O {} fs 1 (spell Delims.default (caseChainSrc [49] Ws.std []
+      ([] ++ (⟨some [50, 32, 111, 114, 32, 49], Ws.std, [.text [97]]⟩ : Clause) :: []) Ws.std)) 1 env =
+      .err ⟨1, true, .syntax, .byCause⟩ :=
+  case_bad_when_source P O {} fs 1 1 env [49] Ws.std [] [] ⟨some [50, 32, 111, 114, 32, 49], Ws.std, [.text [97]]⟩ [] Ws.std
+    (.lit (.int .int 1)) [50, 32, 111, 114, 32, 49] .syntax (by decide) (by decide) rfl (by decide) (by decide)
+    (fun _ h => by cases h) rfl rfl
